@@ -402,6 +402,55 @@ class Facts(object):
             if lst:
                 self.terminate_on[n] = lst
 
+    def throws_restricted(self, entry, keep_target):
+        """Throw set of `entry` when virtual dispatch is restricted: keep_target(callee name) filters the targets of
+        indirect calls (used to fix the dynamic type of a format_writer to the one the entry constructs)."""
+        m = self.m
+        reach = set()
+        work = [entry]
+        while work:
+            n = work.pop()
+            if n in reach or not m.has(n):
+                continue
+            reach.add(n)
+            for (i, ts, kind) in self.calls[n]:
+                for t in ts:
+                    if kind == 'indirect' and not keep_target(t):
+                        continue
+                    if t not in reach:
+                        work.append(t)
+        th = dict((n, set(self.own_throws[n])) for n in reach)
+        for n in reach:
+            f = m.func(n)
+            if is_iostream_fn(f.dem) and not m.is_lib(f):
+                th[n] = set(IOSTREAM_THROWS)
+        changed = True
+        while changed:
+            changed = False
+            for n in reach:
+                f = m.func(n)
+                if is_iostream_fn(f.dem) and not m.is_lib(f):
+                    continue
+                new = set(self.own_throws[n])
+                for (i, ts, kind) in self.calls[n]:
+                    if i.callee == '__cxa_throw' or i.d.get('nounwind') or kind == 'asm':
+                        continue
+                    s = set()
+                    for t in ts:
+                        if kind == 'indirect' and not keep_target(t):
+                            continue
+                        if t == '__cxa_rethrow':
+                            continue
+                        s |= th[t] if t in th else self.ext_throws(t)
+                    if s and i.op == 'invoke':
+                        s = self.through_pad(n, i.d['unwind'], s)
+                    new |= s
+                new.discard('RETHROW')
+                if new != th[n]:
+                    th[n] = new
+                    changed = True
+        return th[entry]
+
     def call_throws(self, i, ts, kind):
         if i.d.get('nounwind'):
             return set()
